@@ -72,6 +72,17 @@ def build_body(vals):
         return P.get('rrtype', 5), bytes(v)
     if shape == 'keepalive-body':
         return 4, bytes(v)
+    if shape == 'upd-mp-bgpls':
+        # MP_REACH_NLRI / MP_UNREACH_NLRI for BGP-LS (AFI 16388, SAFI 71) whose NLRI TLV type and length are hostile
+        t, ln = v[0] * 256 + v[1], v[2] * 256 + v[3]
+        tlv = bytes([v[0], v[1], v[2], v[3]]) + bytes(v[4:])
+        if P.get('unreach'):
+            val = struct.pack('!HB', 16388, 71) + tlv
+            attrs = bytes([0x80, 15, len(val)]) + val
+        else:
+            val = struct.pack('!HBB', 16388, 71, 4) + bytes([10, 0, 0, 9, 0]) + tlv
+            attrs = bytes([0x80, 14, len(val)]) + val
+        return 2, struct.pack('!HH', 0, len(attrs)) + attrs
     if shape == 'unknown-type':
         # a well-framed message whose type octet is not one the agent knows; v[0] is the type
         t = v[0]
@@ -104,6 +115,26 @@ def ob_contain(b0: int, b1: int, b2: int, b3: int, b4: int, b5: int) -> bool:
         w.reactor.now = t_hostile
     hold_before = w.timer_deadline('hold') if w.timer_active('hold') else None
     # ---- the hostile message: nothing may escape ----------------------------------------------------------
+    if P.get('same_segment'):
+        # ... with a good UPDATE right behind it in the same TCP segment: the outcome must be the one of delivering the
+        # two in separate segments, where nothing is delivered any more once the agent has closed the connection
+        w.ev_data(M + G)
+        one = ([h[0] for h in w.handler.log[n1:]], [S.split_types(d) for (_t, _tm, d) in w.wire(mark['wire'])], w.state)
+        pending = reconnect_pending(w)
+        w2 = S.in_state(state, hold=P.get('hold', 90))
+        mark2 = w2.mark()
+        if state == S.ESTABLISHED:
+            w2.ev_data(G)
+        n2 = len(w2.handler.log)
+        if w2.fsm.hold_time and t_hostile < w2.fsm.hold_time / 3:
+            w2.reactor.now = t_hostile
+        w2.ev_data(M)
+        c2 = w2._connected()
+        if c2 is not None and c2.transport.connected and not c2.transport.disconnecting:
+            w2.ev_data(G)
+        two = ([h[0] for h in w2.handler.log[n2:]], [S.split_types(d) for (_t, _tm, d) in w2.wire(mark2['wire'])], w2.state)
+        cover('delivered')
+        return one == two and len(one[0]) <= 2 and pending
     w.ev_data(M)
     if typ == 2 and len(body) >= 4 and state == S.ESTABLISHED and w.state == S.ESTABLISHED and w.fsm.hold_time:
         # a malformed UPDATE is still a message from the peer: like any UPDATE it restarts the hold timer, otherwise a
@@ -186,6 +217,17 @@ def obligations(tier, seed):
         for n in ((1, 3) if quick else (1, 2, 3, 5)):
             out.append(ob('C10/%s/unknown-type/n=%d' % (S.STATE_NAMES[st], n), 'ob_contain',
                           {'state': st, 'shape': 'unknown-type', 'n': n}, covers=['delivered'], cap=200 if quick else 600))
+    for st in ([S.OPENSENT, S.OPENCONFIRM, S.ESTABLISHED]):
+        for shape, n in (('notification', 2), ('notification', 0), ('open-params', 2), ('unknown-type', 1), ('upd-lens', 4),
+                         ('keepalive-body', 1), ('open-short', 3)):
+            out.append(ob('C10/%s/%s/n=%d/same-segment' % (S.STATE_NAMES[st], shape, n), 'ob_contain',
+                          {'state': st, 'shape': shape, 'n': n, 'same_segment': True}, covers=['delivered'],
+                          cap=200 if quick else 600))
+    for unreach in (False, True):
+        for n in ((4, 5) if quick else (4, 5, 6)):
+            out.append(ob('C10/ESTABLISHED/upd-mp-bgpls/unreach=%s/n=%d' % (unreach, n), 'ob_contain',
+                          {'state': S.ESTABLISHED, 'shape': 'upd-mp-bgpls', 'n': n, 'unreach': unreach}, covers=['delivered'],
+                          cap=250 if quick else 600))
     for shape, n in (('upd-lens', 4), ('upd-nlri', 2), ('upd-withdraw', 2), ('rr', 4), ('keepalive-body', 1)):
         out.append(ob('C10/ESTABLISHED-hold0/%s/n=%d' % (shape, n), 'ob_contain',
                       {'state': S.ESTABLISHED, 'shape': shape, 'n': n, 'hold': 0}, covers=['delivered'], cap=200 if quick else 600))
